@@ -23,8 +23,15 @@ Transcribed from the code:
   out (`commitSnapshot` skips a deleting measurement), the WAL is cut by that flush, then the
   files of the measurement are deleted and its flush times forgotten (`DelMmsIdTime`). The
   series index is not touched;
-* the periodic purge (`IndexBuilder.DropSeries`): index items of deleted tsids are removed,
-  the on-disk deleted set is emptied; the in-memory set stays until the next start;
+* the index table is a set of *parts* (`Part`): the items of the series a write batch creates are
+  raw items until the next flush of the table, which makes one part of them; mergers combine
+  parts (`mbegin` / `mend`: a merger takes parts by setting `isInMerge`, later replaces them by
+  their union); searches read every part;
+* the periodic purge (`IndexBuilder.DropSeries` → `RemoveItemsByDelTsidsFromParts`): every part
+  that is neither being merged nor already marked is marked (`isDeleteTsids`) and rewritten
+  without the items of deleted tsids — unchanged: the mark is taken off; changed: the part is
+  replaced by its rewritten copy; only if no part had to be left to a running merge are the
+  caches cleared and the on-disk deleted set emptied; the in-memory set stays until the next start;
 * close + reopen / crash + recover: the deleted set is reloaded from disk (a clean close flushes
   it first, a crash loses what was not flushed), then the WAL is replayed through the write
   path — a row whose series was dropped gets a *new* tsid (the drop is not in the WAL) —
@@ -76,6 +83,15 @@ structure Ent where
   id : Nat
 deriving DecidableEq, Repr
 
+/-- a part of the primary index table: the tsids whose items (key→tsid, tsid→key, tag→tsids
+rows) it holds, and the two flags of `partWrapper`: `isInMerge` (a merger has taken the part)
+and `isDeleteTsids` (the purge of deleted tsids has taken the part). -/
+structure Part where
+  ids : List Nat
+  inMerge : Bool
+  mark : Bool
+deriving Repr, DecidableEq
+
 structure Idx where
   ents : List Ent          -- stored key↦tsid items, creation order
   deleted : List Nat       -- deleted-tsid set in memory
@@ -83,9 +99,11 @@ structure Idx where
   delPend : List Nat       -- acknowledged, still in the raw items of the deleted-tsid table
   next : Nat               -- next tsid
   born : List (Nat × Nat)  -- ghost: every tsid ever issued with its series key (file layout report only)
+  raw : List Nat           -- tsids whose items are still raw items of the index table (in no part yet)
+  parts : List Part        -- the parts of the index table, in the order of `tb.parts`
 deriving Repr, DecidableEq
 
-def Idx.init : Idx := ⟨[], [], [], [], 1, []⟩
+def Idx.init : Idx := ⟨[], [], [], [], 1, [], [], []⟩
 
 /-- `getTSIDBySeriesKey` after the repair of C10: the first stored tsid of the key that is not deleted. -/
 def Idx.liveId (ix : Idx) (kid : Nat) : Option Nat :=
@@ -96,8 +114,15 @@ def Idx.resolve (ix : Idx) (kid : Nat) : Idx × Nat :=
   match ix.liveId kid with
   | some id => (ix, id)
   | none =>
-    ({ ix with ents := ix.ents ++ [⟨kid, ix.next⟩], next := ix.next + 1, born := (ix.next, kid) :: ix.born },
+    ({ ix with ents := ix.ents ++ [⟨kid, ix.next⟩], next := ix.next + 1, born := (ix.next, kid) :: ix.born,
+               raw := ix.raw ++ [ix.next] },
      ix.next)
+
+/-- the raw items of the index table are flushed: they become one new part (`flushRawItems` →
+`mergeRawItemsBlocks`; nothing happens when there are none). The harness does this after every
+write batch, the code within a second, at every data flush, in `ClearCache` and at close. -/
+def Idx.flushRaw (ix : Idx) : Idx :=
+  if ix.raw.isEmpty then ix else { ix with parts := ix.parts ++ [⟨ix.raw, false, false⟩], raw := [] }
 
 /-- a batch of rows keyed by series key ↦ the same rows keyed by tsid. -/
 def resolveRows : Idx → List Row → Idx × List Row
@@ -128,7 +153,7 @@ def St.write (st : St) (b : List Row) : St :=
   let (ix, rows) := resolveRows st.idx b
   { lay := st.lay.write rows
     kwal := st.kwal ++ [(st.lay.ctr % st.lay.nParts, b)]
-    idx := ix }
+    idx := ix.flushRaw }
 
 def St.flush (st : St) : St := { st with lay := st.lay.flush, kwal := [] }
 def St.compact (st : St) : St := { st with lay := st.lay.compact }
@@ -173,25 +198,118 @@ def St.dropMst (U : Univ) (st : St) (m : String) : St :=
     lastFlush := lay2.lastFlush.filter fun x => !st.idx.ofMst U m x.1 }
   { st with lay := lay3, kwal := [] }
 
-/-- the periodic physical purge of deleted series. -/
+/-! ### the parts of the index table: mergers and the purge of deleted tsids
+
+Transcribed from `lib/util/lifted/vm/mergeset/table.go`; the Boolean facts `OG.Gen.C13.*` are
+regenerated from the source on every run, so the definitions follow what the source says now. -/
+
+/-- may a merger take the part?  (`getPartsToMerge` leaves out parts that are being merged,
+`appendPartsToMerge` parts that carry the purge mark) -/
+def Part.mergeable (p : Part) : Bool :=
+  !((OG.Gen.C13.mergeSkipsInMerge && p.inMerge) || (OG.Gen.C13.mergeSkipsMarked && p.mark))
+
+/-- a merger has chosen the parts at positions `sel` (`getPartsToMerge`: `isInMerge = true` under
+`partsLock`). -/
+def beginMergeAt (sel : List Nat) : Nat → List Part → List Part
+  | _, [] => []
+  | i, p :: ps =>
+    (if sel.contains i && p.mergeable then { p with inMerge := p.inMerge || OG.Gen.C13.mergeMarksPicked } else p)
+      :: beginMergeAt sel (i + 1) ps
+
+/-- the running merge finishes (`mergeParts`): its source parts leave `tb.parts`, the output part
+(the union of their items, no flag) is appended. -/
+def endMerge (parts : List Part) : List Part :=
+  let src := parts.filter (·.inMerge)
+  if src.isEmpty then parts
+  else parts.filter (fun p => !p.inMerge) ++ [⟨src.flatMap (·.ids), false, false⟩]
+
+/-- does the walk of the purge take the part?  (`if temp[i].isInMerge … continue`,
+`if temp[i].isDeleteTsids … continue`) -/
+def Part.selected (p : Part) : Bool :=
+  !((OG.Gen.C13.purgeSkipsInMerge && p.inMerge) || (OG.Gen.C13.purgeSkipsMarked && p.mark))
+
+/-- does the part hold an item of a deleted tsid?  (`genTempPart`: `changed`) -/
+def Part.hit (del : List Nat) (p : Part) : Bool := p.ids.any fun i => del.contains i
+
+/-- `filterByDelTsidAndGenNewPart` for a part the walk has taken (and marked): what stays at the
+part's place in `tb.parts`, and what is appended to `tb.parts`. -/
+def rewritePart (del : List Nat) (p : Part) : Option Part × Option Part :=
+  let marked : Part := { p with mark := p.mark || OG.Gen.C13.purgeMarksSelected }
+  if !p.hit del then
+    -- `if !changed { pw.isDeleteTsids = false; …; return nil }`
+    (some { marked with mark := marked.mark && !OG.Gen.C13.purgeUnchangedClearsMark }, none)
+  else if OG.Gen.C13.purgeChangedReplacesPart then
+    -- `removeParts(tb.parts, {pw})`, `if newPW != nil { tb.parts = append(tb.parts, newPW) }`
+    let ids := p.ids.filter fun i => !del.contains i
+    (none, if ids.isEmpty then none
+           else some ⟨ids, false, !OG.Gen.C13.purgeNewPartUnflagged⟩)
+  else (some marked, none)
+
+/-- `RemoveItemsByDelTsidsFromParts`: the parts of the table after the walk. -/
+def purgeParts (del : List Nat) (parts : List Part) : List Part :=
+  parts.filterMap (fun p => if p.selected then (rewritePart del p).1 else some p) ++
+    parts.filterMap (fun p => if p.selected then (rewritePart del p).2 else none)
+
+/-- does the walk report that it is incomplete?  (the error of `RemoveItemsByDelTsidsFromParts`) -/
+def purgeRefused (parts : List Part) : Bool :=
+  (OG.Gen.C13.purgeRefusesWhenInMerge && parts.any fun p => OG.Gen.C13.purgeSkipsInMerge && p.inMerge) ||
+    (OG.Gen.C13.purgeRefusesWhenMarked && parts.any fun p =>
+      !(OG.Gen.C13.purgeSkipsInMerge && p.inMerge) && OG.Gen.C13.purgeSkipsMarked && p.mark)
+
+/-- the periodic physical purge of deleted series (`IndexBuilder.DropSeries`): nothing to do when
+the deleted set in memory is empty; else the parts of the index table are walked, an index entry
+survives iff its tsid is still in some part (or in the raw items), and — only when the walk
+reported no error — the caches are cleared and the parts of the deleted-tsid table removed. -/
 def St.purge (st : St) : St :=
-  { st with idx := { st.idx with
-      ents := st.idx.ents.filter (fun e => !st.idx.deleted.contains e.id)
-      delDisk := [] } }
+  if st.idx.deleted.isEmpty then st
+  else
+    let parts := purgeParts st.idx.deleted st.idx.parts
+    let kept := parts.flatMap (·.ids) ++ st.idx.raw
+    { st with idx := { st.idx with
+        ents := st.idx.ents.filter (fun e => kept.contains e.id)
+        parts := parts
+        delDisk := if purgeRefused st.idx.parts then st.idx.delDisk else [] } }
+
+/-- did the last purge report an error?  (what the driver answers) -/
+def St.purgeErr (st : St) : Bool := !st.idx.deleted.isEmpty && purgeRefused st.idx.parts
+
+def St.mbegin (st : St) (sel : List Nat) : St :=
+  { st with idx := { st.idx with parts := beginMergeAt sel 0 st.idx.parts } }
+
+def St.mend (st : St) : St := { st with idx := { st.idx with parts := endMerge st.idx.parts } }
+
+/-- a merge of the parts at positions `sel` from start to end. -/
+def St.imerge (st : St) (sel : List Nat) : St := (st.mbegin sel).mend
+
+/-- the background mergers, which run from the start of the process until the harness stops
+them, have regrouped the parts: any grouping of the same tsids, no flag. Refused (state
+unchanged) when a flag is set or the groups do not hold exactly the tsids of the parts. -/
+def St.regroup (st : St) (gs : List (List Nat)) : St :=
+  let old := st.idx.parts.flatMap (·.ids)
+  let new := gs.flatten
+  if st.idx.parts.all (fun p => !p.inMerge && !p.mark) && old.all new.contains && new.all old.contains then
+    { st with idx := { st.idx with parts := (gs.filter (!·.isEmpty)).map fun g => ⟨g, false, false⟩ } }
+  else st
 
 /-- one round of serial WAL replay, generic in the record payload (`C02.popRound`). -/
 def replayOrder (n : Nat) (recs : List (Nat × List Row)) : List (List Row) :=
   roundRobin n (recs.length + 1) recs
 
+/-- a new process opens the index: the deleted set is what the deleted-tsid table holds, the part
+flags are those of fresh `partWrapper`s (a merge that was running left its sources in place). -/
+def Idx.restart (ix : Idx) : Idx :=
+  { ix with deleted := ix.delDisk, delPend := []
+            parts := ix.parts.map fun p => { p with inMerge := false, mark := false } }
+
 /-- start of a shard on what is on disk: load the deleted set, replay the WAL through the write
-path, flush. -/
+path, flush (the data flush flushes the index's raw items too). -/
 def St.recover (st : St) : St :=
-  let ix0 := { st.idx with deleted := st.idx.delDisk, delPend := [] }
+  let ix0 := st.idx.restart
   let (ix, batches) := resolveBatches ix0 (replayOrder st.lay.nParts st.kwal)
   let act := (batches.reverse.map batchCells).flatten
   { lay := C02.St.flush { st.lay with ctr := 0, active := act }
     kwal := []
-    idx := ix }
+    idx := ix.flushRaw }
 
 /-- clean close (flushes the index tables) + start. -/
 def St.reopen (st : St) : St := st.tick.recover
